@@ -138,6 +138,10 @@ func genC03Plan(r *sim.Rng, tier string) AdmPlan {
 			pl.Ops = append(pl.Ops, AdmOp{Kind: "advance", Ms: 100 + r.Intn(2500)})
 		case 1:
 			pl.Ops = append(pl.Ops, AdmOp{Kind: "stat"})
+		case 3:
+			if r.Bool(0.4) {
+				pl.Ops = append(pl.Ops, AdmOp{Kind: "start_rtp_pub", Stream: r.Intn(pl.Streams)})
+			}
 		case 2:
 			if r.Bool(0.5) {
 				// a kick that names no live session of the stream: an id that has ended, or one that never existed
@@ -362,12 +366,13 @@ func CheckC03(k *sim.Kernel, ar *AdmRun) {
 	}
 	// ---- start_relay_pull while another input is accepted (for the whole duration of the call) reports failure
 	for _, pr := range ar.PullApi {
-		if pr.Kind != "start_pull" || !pr.Result.Done || pr.Result.ErrorCode() != 0 {
+		if (pr.Kind != "start_pull" && pr.Kind != "start_rtp_pub") || !pr.Result.Done || pr.Result.ErrorCode() != 0 {
 			continue
 		}
+		api := map[string]string{"start_pull": "start_relay_pull", "start_rtp_pub": "start_rtp_pub"}[pr.Kind]
 		for _, at := range ar.Attempts {
 			if at.Stream == pr.Stream && at.Known && at.Accepted && at.RetStep >= 0 && at.RetStep < pr.SentStep && (at.RelCall < 0 || at.RelCall > pr.Step) && at.Kind != "pull" {
-				k.Violate("C03.api-start-with-input", "start_relay_pull for %s sent at step %d answered error_code=0 although %s attempt #%d had been accepted at step %d and was not released before step %d", StreamName(pr.Stream), pr.SentStep, at.Kind, at.ID, at.RetStep, pr.Step)
+				k.Violate("C03.api-start-with-input", api+" for %s sent at step %d answered error_code=0 although %s attempt #%d had been accepted at step %d and was not released before step %d", StreamName(pr.Stream), pr.SentStep, at.Kind, at.ID, at.RetStep, pr.Step)
 			}
 		}
 	}
